@@ -360,8 +360,19 @@ func c16r4(p *Program, r *Report) {
 		okName := "ok"
 		ast.Inspect(fi.Decl.Body, func(x ast.Node) bool {
 			if as, isAs := x.(*ast.AssignStmt); isAs && len(as.Lhs) == 2 && len(as.Rhs) == 1 {
-				if c, isC := ast.Unparen(as.Rhs[0]).(*ast.CallExpr); isC && strings.HasPrefix(calleeName(fi.Pkg.TypesInfo, c), "(*ring).") {
-					if id, isId := as.Lhs[1].(*ast.Ident); isId && id.Name != "_" {
+				if c, isC := ast.Unparen(as.Rhs[0]).(*ast.CallExpr); isC {
+					viaRing := strings.HasPrefix(calleeName(fi.Pkg.TypesInfo, c), "(*ring).")
+					// or a helper that hands the ring's answer through
+					if fn := calleeOf(fi.Pkg.TypesInfo, c); fn != nil && !viaRing {
+						if h := p.FuncOf(fn); h != nil && h.Decl.Body != nil && len(h.Decl.Body.List) == 1 {
+							if rs, isRet := h.Decl.Body.List[0].(*ast.ReturnStmt); isRet && len(rs.Results) == 1 {
+								if rc, isRC := ast.Unparen(rs.Results[0]).(*ast.CallExpr); isRC && strings.HasPrefix(calleeName(h.Pkg.TypesInfo, rc), "(*ring).") {
+									viaRing = true
+								}
+							}
+						}
+					}
+					if id, isId := as.Lhs[1].(*ast.Ident); isId && id.Name != "_" && viaRing {
 						okName = id.Name
 					}
 				}
